@@ -67,6 +67,8 @@ def run(snap, tier, seed, t0, replay):
                 params["third_basetype"] = True
                 params["leaf_per_basetype"] = True
             params["explicit_root"] = (k % 6 != 5)
+            if k % 8 == 3:
+                params["kp_universal_last"] = True
             if k % 8 == 7:
                 params["dotdot_root"] = True       # a root folder spelled with '..' is a root like any other
             if k % 8 == 6:
